@@ -184,3 +184,33 @@ pub(crate) fn c15_traceparent_parse_values() {
     }
     kani::cover!(true);
 }
+
+/// TraceFlags::try_from_hex_slice is total on EVERY slice of length 0..=3 and accepts exactly two hex digits.
+#[cfg_attr(kani, kani::proof)]
+pub(crate) fn c15_trace_flags_parse_total() {
+    let buf: [u8; 3] = kani::any();
+    let len: usize = kani::any();
+    kani::assume(len <= 3);
+    let r = TraceFlags::try_from_hex_slice(&buf[..len]);
+    assert!(r.is_ok() == (len == 2 && is_hex(buf[0]) && is_hex(buf[1])));
+    if let Ok(f) = r {
+        let out = f.to_hex();
+        assert!(out[0] == lower(buf[0]) && out[1] == lower(buf[1]));
+    }
+    kani::cover!(true);
+}
+
+/// The version field: a header that is valid apart from its two version bytes (symbolic, ASCII) is accepted
+/// iff they are "00" (the Verus unit restates this literal because Verus cannot take the byte-string pattern).
+#[cfg_attr(kani, kani::proof)]
+#[cfg_attr(kani, kani::unwind(57))]
+pub(crate) fn c15_traceparent_version_field() {
+    let mut buf: [u8; 55] = *b"00-4bf92f3577b34da6a3ce929d0e0e4736-00f067aa0ba902b7-01";
+    let (a, b): (u8, u8) = (kani::any(), kani::any());
+    kani::assume(a < 128 && b < 128);
+    buf[0] = a;
+    buf[1] = b;
+    let s = core::str::from_utf8(&buf).unwrap();
+    assert!(Traceparent::try_from_str(s).is_ok() == (a == b'0' && b == b'0'));
+    kani::cover!(true);
+}
